@@ -12,9 +12,13 @@ def main():
     from radioactivedecay.nuclide import _build_decay_digraph
     D = rd.DEFAULTDATA
     import os
-    if os.environ.get("VERIF_DIGRAPH_DS") == "synth":
+    dsel = os.environ.get("VERIF_DIGRAPH_DS", "")
+    if dsel == "synth":
         from radioactivedecay.decaydata import load_dataset
         D = load_dataset("synth", os.environ["VERIF_SYNTH_DIR"], load_sympy=True)
+    elif dsel and os.path.isdir(dsel):
+        from radioactivedecay.decaydata import load_dataset
+        D = load_dataset("rand", dsel, load_sympy=False)
     out = []
     for name in D.nuclides:
         name = str(name)
